@@ -241,6 +241,14 @@ fn draw_addr(rng: &mut Rng, want_refused: Option<bool>) -> String {
     }
 }
 
+fn draw_v4(rng: &mut Rng) -> String {
+    if rng.chance(1, 3) {
+        global_v4(rng)
+    } else {
+        special_v4(rng)
+    }
+}
+
 fn authority_of(ip: &str, port: u16) -> String {
     if ip.contains(':') {
         format!("[{}]:{}", ip, port)
@@ -300,7 +308,13 @@ fn draw_req(rng: &mut Rng, focus: Focus, idx: usize, n_users: usize) -> Req {
     let mut dns = None;
     let mut method = "CONNECT".to_string();
     let kind = match focus {
-        Focus::Egress => 4 + rng.below(3),
+        // 12, 13: literals that do not parse as ip:port - a plain-HTTP target without a port,
+        // an authority with userinfo - reach the forwarder as "host names"
+        Focus::Egress => match rng.below(5) {
+            3 => 12,
+            4 => 13,
+            k => 4 + k,
+        },
         Focus::Responses => rng.below(12),
         Focus::Auth => rng.below(9),
     };
@@ -357,6 +371,13 @@ fn draw_req(rng: &mut Rng, focus: Focus, idx: usize, n_users: usize) -> Req {
                 format!("{}:{}", name, port)
             }
         }
+        // IPv4 only: a bracketed IPv6 literal in these positions is not something getaddrinfo
+        // resolves, so nothing is attempted and no policy verdict exists
+        12 => {
+            method = "GET".to_string();
+            format!("http://{}/e{}", draw_v4(rng), idx)
+        }
+        13 => format!("u{}@{}", idx, authority_of(&draw_v4(rng), port)),
         // CONNECT without a port
         10 => {
             let name = format!("n{}.sim.test", idx);
@@ -691,6 +712,10 @@ fn target_host_port(r: &Req) -> Option<(String, Option<u16>)> {
     } else {
         let rest = r.target.split("://").nth(1)?;
         rest.split('/').next()?.to_string()
+    };
+    let auth = match auth.rsplit_once('@') {
+        Some((_, hostport)) => hostport.to_string(),
+        None => auth,
     };
     if let Some(rest) = auth.strip_prefix('[') {
         let (h, p) = rest.split_once(']')?;
@@ -1462,7 +1487,10 @@ fn judge_authorised(
             format!("request {} ({}) was resolved {} times", i, r.target, my_dns.len()),
         );
     }
-    if literal.is_some() && !my_dns.is_empty() {
+    // a literal that does not parse as ip:port (no port, userinfo) goes through getaddrinfo,
+    // which answers numeric hosts without a query: that is no second source of truth
+    let numeric_via_resolver = r.target.contains('@') || (!is_connect && port.is_none());
+    if literal.is_some() && !my_dns.is_empty() && !numeric_via_resolver {
         out.violate(
             "C03",
             format!("egress:{}:literal-resolved", proto),
